@@ -1,6 +1,6 @@
 """C03 (partial): T-LANE, T-PAIR, T-NODROP, T-DISP, R-WRAP(a), DL-WIDTH."""
 from nk import report
-from rules import lane, disp
+from rules import elf, lane, disp
 from . import common
 
 EXPLANATION = (
@@ -19,7 +19,7 @@ EXPLANATION = (
 def run(tier, t0):
     prog = common.program()
     results = [lane.lanes(prog, 40), lane.pair(prog), lane.nodrop(prog, 8), disp.disp(prog), lane.wrap_pages(prog, 8),
-               lane.dl_width(prog)]
+               lane.dl_width(prog), elf.layout(prog)]
     return report.finish('C03', tier, results, EXPLANATION,
                          ['format definitions (Intel hex two\'s-complement checksum, S-record one\'s-complement checksum '
                           'and length) are transcribed in rules/lane.py',
